@@ -572,10 +572,9 @@ impl Range {
         // Very large ranges are calculated with halved values to avoid an overflow.
         // All other ranges must not be halved, that is not exact for the smallest numbers.
         let scale = if (max - min).is_finite() { 1.0 } else { 0.5 };
+        // A maximum smaller than the minimum is handled like an empty range. Failing here would
+        // make the whole point cloud unreadable, even if nothing is normalized at all.
         let scaled_range = max * scale - min * scale;
-        if scaled_range < 0.0 {
-            Error::invalid(format!("Found invalid range: min={min}, max={max}"))?;
-        }
         Ok(Self {
             min,
             scale,
